@@ -83,6 +83,7 @@ SCRIPTS_ALL.update(JOLIET_SCRIPTS)
 FLAVOURS = {
     'plain': dict(), 'level3': dict(interchange_level=3), 'joliet': dict(joliet=3), 'rr109': dict(rock_ridge='1.09'), 'rr112': dict(rock_ridge='1.12'),
     'rr110-joliet': dict(rock_ridge='1.10', joliet=2), 'rr112-joliet-xa': dict(rock_ridge='1.12', joliet=3, xa=True),
+    'level4': dict(interchange_level=4), 'joliet1-level2': dict(joliet=1, interchange_level=2),
 }
 
 
@@ -178,9 +179,23 @@ def random_script(flavour, seed, nops=28):
             target = rnd.choice(['a', '/', '../x', './a/../b', 'c' * 255, '/'.join('p%d' % i for i in range(rnd.randint(2, 70))), 'q' * 300 + '/r', '/abs/' + 'z' * 100])
             ops.append(('symlink', ip, rrname(k), target))
             symlinks.append(ip)
-        else:
+        elif r < 0.96:
             ip = rnd.choice(sorted(files))
             ops.append(('hide', ip))
+        else:
+            # remove ONE name of a content that has several
+            multi = [p for p, g in files.items() if sum(1 for q, h in files.items() if h['cid'] == g['cid']) > 1]
+            if multi:
+                ip = rnd.choice(sorted(multi))
+                ops.append(('rm_link', ip))
+                files.pop(ip)
+            else:
+                cands = sorted(p for p, g in files.items() if len(g['j']) > 1)
+                if cands:
+                    ip = rnd.choice(cands)
+                    jp = files[ip]['j'][-1]
+                    ops.append(('rm_jlink', jp))
+                    files[ip]['j'].remove(jp)
     return kw, ops
 
 
@@ -565,6 +580,7 @@ class Reopened(Base):
     untouched file still has its bytes (for EVERY content)."""
     target = S.PC + '.open_fp'
     script = 'plain-small'
+    generations = 1     # 2: the edited image is opened, edited and written once more
     edit = True         # False: stop after the fixpoint clause (C01 uses the reopen + fixpoint part only; the edits are C02's subject)
     crosscheck = False
     label = property(lambda self: 'pycdlib.PyCdlib.open_fp<%s>' % self.script)
@@ -659,6 +675,46 @@ class Reopened(Base):
         cl['edited-image-length-is-the-declared-size'] = len(V.items_of(img2)) == res['pvd']['space_size'] * 2048
         if im.problems:
             a.problems = im.problems
+        if self.generations > 1 and not im.problems:
+            # a second generation: open the edited image, add one more file, write, decode
+            re2 = c.new(S.PC)
+            ok3, _ = S.try_call(c, lambda: S.call(c, re2, 'open_fp', c.file(img2)))
+            cl['second-generation-opens'] = ok3
+            if not ok3:
+                return cl
+            extra2 = c.bytes('extra_content_2', 2049)
+            k = {'iso_path': '/GEN2.;1'}
+            if 'rock_ridge' in kw:
+                k['rr_name'] = 'generation two'
+            if 'joliet' in kw:
+                k['joliet_path'] = '/generation two'
+            ok4, _ = S.try_call(c, lambda: S.call(c, re2, 'add_fp', S.data_file(c, extra2), 2049, **k))
+            ok5, img3 = S.try_call(c, lambda: S.written(c, re2)) if ok4 else (False, None)
+            cl['second-generation-edit-and-write'] = ok4 and ok5
+            if not (ok4 and ok5):
+                return cl
+            try:
+                im3, res3 = R.read_iso(list(V.items_of(img3)))
+                R.check_path_tables(im3, res3['pvd'], res3['root'])
+                tree3 = R.logical_tree(im3, res3['root'])
+            except (R.Bad, KeyError):
+                cl['second-generation-decodes'] = False
+                return cl
+            want3 = dict(want)
+            want3['/GEN2.;1'] = ('file', 'extra2')
+            if not relocating:
+                cl['second-generation-tree'] = sorted(tree3) == sorted(p.encode() for p in want3)
+                keep3 = []
+                for p, v in want3.items():
+                    t = tree3.get(p.encode())
+                    if t is None or v[0] != 'file':
+                        continue
+                    data = extra if v[1] == 'extra' else (extra2 if v[1] == 'extra2' else a.contents[v[1]])
+                    keep3.append(Eq(V.mk_bytes(R.file_bytes(im3, t[1])), data))
+                cl['second-generation-files-keep-their-bytes'] = And(*keep3) if keep3 else True
+            cl['second-generation-structurally-valid'] = not im3.problems and len(V.items_of(img3)) == res3['pvd']['space_size'] * 2048
+            if im3.problems:
+                a.problems = im3.problems
         return cl
 
     def observe(self, c, a, out):
